@@ -965,3 +965,4 @@ mutant("C18-M36", "C18", "R18h", "characteristic pages taken from the compartmen
 mutant("C20-M30", "C20", "R20m", "link lookup rebuilt from each parameter's own list (seeded C20i)", M, "Population.relink", "        self.link_lookup = {name: [link for link in self.links if link.name == name] for name in link_names}", "        self.link_lookup = dict()\n        for link in self.links:\n            self.link_lookup[link.name] = link.parameter.links if link.parameter is not None else [link]")
 mutant("C14-M38", "C14", "R14m", "package rescale applied to every year of the members (seeded C14i)", OP, "SpendingPackageAdjustment.set_total_spend", "            ts.insert(t=self.t, v=ts.get(self.t) * spend_factor)", "            ts.vals = [v * spend_factor for v in ts.vals]")
 mutant("C08-M29", "C08", "R08j", "characteristic storage only dropped when the model is pickled (seeded C08i)", M, "Model.process", "        for pop in self.pops:\n            for charac in pop.characs:\n                charac._vals = None\n", "")
+mutant("C13-M28", "C13", "R13j", "source-popsize memo not cleared after the initial flush (defect #28 restored)", M, "Model.process", "            for pop in self.pops:\n                for par in pop.pars:\n                    par._source_popsize_cache_time = None  # The flush changed compartment sizes at this time index, so the cached source population sizes are stale\n", "")
